@@ -375,10 +375,10 @@ class ProgGen:
         live = sorted(self.vals)
         x = r.random()
         depth = r.choice([1, 2, 2, 3, 3, 4, self.max_depth])
-        if x < 0.06:
+        if x < 0.04:
             h = self.new_handle(); c = round(r.uniform(-2, 2), 2) or 0.5
             self.vals[h] = self.const_val(float(c)); self.emit(("new", h, float(c))); self.last_lhs = h
-        elif x < 0.10:
+        elif x < 0.08:
             h = self.new_handle(); self.uninit.add(h); self.emit(("newd", h))
         elif x < 0.18:
             e, v = self.try_expr(depth if r.random() < 0.6 else 0)      # expression or copy constructor
@@ -391,7 +391,7 @@ class ProgGen:
                 self.last_lhs = None
         elif x < 0.27 and self.uninit and r.random() < 0.3:
             h = r.choice(sorted(self.uninit)); self.uninit.discard(h); self.emit(("del", h))
-        elif x < 0.31:
+        elif x < 0.29:
             h = r.choice(live); c = round(r.uniform(-2, 2), 2) or 0.5
             self.vals[h] = self.const_val(float(c)); self.emit(("setp", h, float(c))); self.last_lhs = h
         elif x < 0.45:
